@@ -2,8 +2,8 @@
 (***************************************************************************)
 (* Black-oil PVT functions against their input tables (property C14).      *)
 (*                                                                         *)
-(* Part 1 - which models exist: per PVT region a dead or live oil table    *)
-(* (PVDO / PVTO) and a dry or wet gas table (PVDG / PVTG) with 2..MaxNodes *)
+(* Part 1 - which models exist: per PVT region a dead or live oil table or *)
+(* a constant-compressibility oil (PVDO / PVTO / PVCDO) and a dry or wet gas table (PVDG / PVTG) with 2..MaxNodes *)
 (* pressure nodes; in a live table every composition node may carry an     *)
 (* undersaturated branch and the last one must.  TLC generates the shapes; *)
 (* the numbers (physically ordered) are drawn by the harness driver.       *)
@@ -25,7 +25,7 @@
 EXTENDS Integers, Sequences, FiniteSets, TLC, Json
 
 CONSTANTS MaxNodes, MaxRegions
-Shapes == [oil : {"PVDO", "PVTO"}, gas : {"PVDG", "PVTG"}, nodes : 2..MaxNodes]
+Shapes == [oil : {"PVDO", "PVTO", "PVCDO"}, gas : {"PVDG", "PVTG"}, nodes : 2..MaxNodes]
 VARIABLES model, built
 mvars == <<model, built>>
 \* branches: which composition nodes of a live table carry an undersaturated branch (the last always does)
